@@ -39,6 +39,12 @@ type prover struct {
 	noInvFor      *ssa.BasicBlock // do not assume loop invariants of this loop (entry-edge proofs)
 	invAdded      map[int]bool
 	entryMap      func(path string) (string, bool) // call-site specialisation: entry versions of captured variables -> the caller's variables
+	minmax        map[string]minmaxDef             // results of the min / max builtins: the result is one of the arguments
+}
+
+type minmaxDef struct {
+	isMin bool
+	args  []linExpr
 }
 
 type bndEngine struct {
@@ -794,6 +800,14 @@ func (p *prover) linCall(x *ssa.Call) linExpr {
 				p.defined[k] = true
 				p.rangeFacts(k, x.Type())
 				allNonNeg := true
+				if p.minmax == nil {
+					p.minmax = map[string]minmaxDef{}
+				}
+				def := minmaxDef{isMin: b.Name() == "min"}
+				for _, a := range cc.Args {
+					def.args = append(def.args, p.lin(a))
+				}
+				p.minmax[k] = def
 				for _, a := range cc.Args {
 					if b.Name() == "min" {
 						p.add(constraint{p.lin(a).sub(linVar(k)), "min <= arg"})
@@ -832,6 +846,31 @@ func (p *prover) linCall(x *ssa.Call) linExpr {
 				p.facts = sub.facts
 				p.add(constraint{linVar(k).sub(r), "inlined " + cal.Name()})
 				p.add(constraint{r.sub(linVar(k)), "inlined " + cal.Name()})
+				return linVar(k)
+			}
+		}
+		// helpers with several blocks but a single return: the returned expression is analysed at the return
+		// (facts known there: the branch conditions that dominate it, loop invariants)
+		if IsModule(cal) && len(cal.Blocks) > 1 && isIntType(x.Type()) && p.depth < 6 && !cc.IsInvoke() {
+			var rets []*ssa.Return
+			eachInstr(cal, func(in ssa.Instruction) {
+				if rt, ok := in.(*ssa.Return); ok {
+					rets = append(rets, rt)
+				}
+			})
+			if len(rets) == 1 && len(rets[0].Results) == 1 {
+				rt := rets[0]
+				sub := &prover{eng: p.eng, fn: cal, mem: p.eng.memOf(cal), facts: p.facts, defined: p.defined, used: p.used, env: map[ssa.Value]linExpr{}, prefix: p.prefix + x.Name() + ">" + cal.Name() + "/", depth: p.depth + 1, at: rt}
+				for i, prm := range cal.Params {
+					if isIntType(prm.Type()) && i < len(cc.Args) {
+						sub.env[prm] = p.lin(cc.Args[i])
+					}
+				}
+				sub.facts = p.facts
+				r := sub.lin(rt.Results[0])
+				p.facts = sub.facts
+				p.add(constraint{linVar(k).sub(r), "result of " + cal.Name() + " (its single return expression)"})
+				p.add(constraint{r.sub(linVar(k)), "result of " + cal.Name() + " (its single return expression)"})
 				return linVar(k)
 			}
 		}
@@ -990,6 +1029,24 @@ func (p *prover) addCond(c Cond) {
 			}
 		}
 		return
+	}
+	// len(v) known positive: v is not nil (what a non-nil result of certain calls looks like is known)
+	if lc, isLen := b.X.(*ssa.Call); isLen && isCall(lc, "builtin len") {
+		if k, isC := constInt(b.Y); isC {
+			pos := false
+			switch {
+			case k == 0 && ((b.Op == token.NEQ || b.Op == token.GTR) == c.Sense) && (b.Op == token.NEQ || b.Op == token.GTR || b.Op == token.EQL || b.Op == token.LEQ):
+				pos = (b.Op == token.NEQ || b.Op == token.GTR) && c.Sense || (b.Op == token.EQL || b.Op == token.LEQ) && !c.Sense
+			case k == 1 && (b.Op == token.GEQ && c.Sense || b.Op == token.LSS && !c.Sense):
+				pos = true
+			}
+			if pos {
+				switch lc.Call.Args[0].Type().Underlying().(type) {
+				case *types.Slice, *types.Map:
+					p.eng.nonNilFacts(p, lc.Call.Args[0], true)
+				}
+			}
+		}
 	}
 	x, y := p.lin(b.X), p.lin(b.Y)
 	op := b.Op
